@@ -59,7 +59,7 @@ def ex : Inst := ⟨2, 1, 2, fun j m => if m = 0 then 1 + j else 2 - j, fun p =>
 example : WF ex := ⟨by decide, by decide, by decide, by intro p hp; exact hp, by
   intro j m hj _
   have : j < 2 := hj
-  simp only [ex]; split <;> omega⟩
+  apply small_lt_unset; simp only [ex]; split <;> omega⟩
 
 example : RunND env ex (env.reset ex) [0, 1, 0, 1] (exec env ex (env.reset ex) [0, 1, 0, 1]) := by
   refine RunND.cons (by decide) (by decide) (by decide) ?_
